@@ -91,6 +91,9 @@ let model_token (s : st) (t : tok) : st * string =
   let missing = (will && t.obs = [] && t.observed) || (will && not t.observed) || left < nsent in
   let tag = if missing then "M" else if left > nsent then "U" else if t.obs <> [] then "C" else "-" in
   (s3, tag)
+let route_of = function
+  | 'r' -> RReturn | 'e' -> RExit | 'w' -> RExitInBlock | 't' -> RThrow | 's' -> RExitStatus | 'j' -> RExitAfterThread
+  | c -> failwith ("bad route " ^ String.make 1 c)
 let sorted_ids l = List.sort compare (List.map int_of_nat l)
 let dump_model (s : st) =
   let ids = sorted_ids s.ids in
@@ -108,7 +111,7 @@ let dump_spec (s : sp) =
 let () =
   let mode = Sys.argv.(1) in
   if mode = "params" then
-    Printf.printf "rem_fix=%b sweep_fix=%b defer_fix=%b shape=%b\n" lc_rem_fix lc_sweep_fix lc_defer_fix lc_shape
+    Printf.printf "rem_fix=%b sweep_fix=%b defer_fix=%b shape=%b main_atexit=%b main_after_return=%b\n" lc_rem_fix lc_sweep_fix lc_defer_fix lc_shape lc_main_atexit lc_main_after
   else
   read_lines (fun line ->
     match String.split_on_char '|' line with
@@ -120,6 +123,10 @@ let () =
       (try
         if mode = "model" then begin
           let _ = List.fold_left (fun s o ->
+            if o.[0] = 'T' then begin
+              (* program exit through route o.[1]: the wrapper's teardown arrangement decides *)
+              let s' = lc_terminate (route_of o.[1]) [] s in
+              sep (); Buffer.add_string buf ("X;" ^ dump_model s'); s' end else
             match parse_op o with
             | None -> s
             | Some t ->
@@ -127,6 +134,10 @@ let () =
               sep (); Buffer.add_string buf (tag ^ ";" ^ dump_model s'); s') lc_init ops in ()
         end else begin
           let _ = List.fold_left (fun s o ->
+            if o.[0] = 'T' then begin
+              (* the specification: every way of ending the program is a teardown *)
+              let s' = lc_sp_step s (ETeardown []) in
+              sep (); Buffer.add_string buf (dump_spec s'); s' end else
             match parse_op o with
             | None -> s
             | Some t ->
